@@ -25,8 +25,7 @@ def run(tier, seed, scale):
         Phase("dbg", "c20", "dbg", 12000 if q else 200000, procs=3 if q else 6),
         Phase("tsan", "c20", "tsan", 1500 if q else 30000, procs=3 if q else 8, timeout=1500),
     ]
-    if not q:
-        phases.append(Phase("asan", "c20", "asan", 30000, procs=6, timeout=1500))
+    phases.append(Phase("asan", "c20", "asan", 1500 if q else 30000, procs=2 if q else 6, timeout=1500))      # address+undefined: thread-based coroutines, creation/destruction of used coroutines
     run_phases(chk, phases, seed, scale)
     s = chk.stats
     early, normal = s.get("resume_arrived_before_suspension_finished(early)", 0), s.get("resume_found_suspended(normal)", 0)
